@@ -1,5 +1,6 @@
 SPECIFICATION Spec
 CONSTANTS
+  Aborters = {}
   NT = 2
   Rounds = 1
   Variant = "nonotify"
